@@ -229,7 +229,7 @@ impl OpKind {
             }
             CCube | CNested => a[0].map(|x| x * x * x),
             CSte => a[0].map(|x| x.ste_relu()),
-            CGate => a[0].map(|x| if x.val() > 0.0 { S::c(1.0) } else { S::zero() }),
+            CGate => a[0].map(|x| x.gate()),
             CloneH => a[0].clone(),
             CComp => same(a[0], a[1])?.zip(a[1], |x, y| x * y)?.zip(a[0], |p, x| p + x)?,
             CLibMul => same(a[0], a[1])?.zip(a[1], |x, y| x * y)?,
@@ -829,8 +829,10 @@ pub fn shadow_bound(p: &Program, seed: &[f64], root: usize) -> f64 {
     for n in q.nodes.iter_mut() {
         match n {
             Node::Leaf { tracked, .. } => *tracked = true,
-            Node::Op { post, pre, .. } => {
-                *post = None;
+            Node::Op { kind, post, pre, .. } => {
+                // (the constant result of a derivative-free user operation carries a tangent of its own in the magnitude
+                // scalar; tracked in the copy, so that it is not cut off at its first use either)
+                *post = if matches!(kind, OpKind::CGate) { Some(true) } else { None };
                 pre.clear();
             }
         }
